@@ -6,7 +6,9 @@ singleton children, Reference/transform/c14n rewrites, extra References / ds:Obj
 edits, seeded random tree surgery) is applied to the XML tree; every variant goes through the real
 Saml2Client.  Observables: (1) every SecurityContext._check_signature call (document, node name,
 item id, schema verdict, result) -- compared with the Lean model `Xsw.checkSignature` on the abstract
-tree of that very document; (2) the end-to-end outcome -- the Lean spec demands: rejected, or the
+tree of that very document; (1b) when assertion signatures are required, the sequence of assertion-level checks
+of AuthnResponse.parse_assertion on the received and on the decrypted document -- compared with `Xsw.flow`
+(Model/XswFlow.lean); (2) the end-to-end outcome -- the Lean spec demands: rejected, or the
 reported data equal the original's."""
 import base64
 import copy
@@ -21,21 +23,28 @@ from props import _sp_common as C
 
 PROP = "C02"
 LEAN_PROPS = "PysamlModel.Props.C02"
-MODEL_TARGETS = ["PysamlModel.Model.Xsw", "PysamlModel.Spec.C02"]
+MODEL_TARGETS = ["PysamlModel.Model.Xsw", "PysamlModel.Model.XswFlow", "PysamlModel.Spec.C02"]
 AUDIT = "PysamlModel/Audit/C02.lean"
 DRIVER = "Drivers/C02.lean"
 PARALLEL = True
-CORRESPONDENCE = "Drivers/C02.lean (Xsw.checkSignature) vs SecurityContext._check_signature, per call, on the abstract tree of the verified document"
+CORRESPONDENCE = ("Drivers/C02.lean (Xsw.checkSignature) vs SecurityContext._check_signature, per call, on the abstract tree of the verified document; "
+                  "Xsw.flow vs AuthnResponse.parse_assertion when assertion signatures are required: the sequence of assertion-level checks "
+                  "(received / decrypted document, ID, result) the implementation made must be a prefix of the model's, equal to it when the "
+                  "message is accepted, and the assertion reported must be the first one the model adopts")
 RULE = ("systematic surgery on genuinely signed Responses: 8 carriers x {Response, Assertion} x ID policy {same, fresh, removed, case-changed, padded} x "
         "signature policy {copied, stripped, moved, original-then-fake}, duplicates of every singleton member on the signature path, Reference URI / "
-        "transform / c14n / method rewrites, extra Reference / ds:Object, splices of two genuine messages, text edits; plus seeded "
-        "random surgery; distinct = distinct variant documents")
+        "transform / c14n / method rewrites, extra Reference / ds:Object, splices of two genuine messages, text edits; wrapping across the "
+        "encryption boundary: 16 layouts of {original, doctored copy} x {clear, encrypted to the SP, encrypted to another key, clear inside an "
+        "EncryptedAssertion wrapper} below the Response or below an Advice x ID policy x signature {copied, stripped}; plus seeded "
+        "random surgery (incl. encrypting a random assertion / appending an encrypted doctored copy); distinct = distinct variant documents")
 TRUSTED = C.TRUSTED_COMMON + [
     "the abstract tree sent to the model is built by the harness from the document text (xml.etree), with DigestValue / "
     "SignatureValue texts mapped to ideal leaves through the genuine signing events",
     "schema validity of the re-serialised item is taken from the real xmlschema run (input of the model)",
 ]
-ASSUMPTIONS = ["plain (not encrypted) assertions in the surgery stream",
+ASSUMPTIONS = ["the flow model covers one decryption stage (EncryptedData inside decrypted content: generated, judged by the spec, not compared with the flow model)",
+               "the decrypted document given to the flow model is the text the implementation handed to decrypt_assertions (probe); that the k-th clear "
+               "assertion of the re-serialised decrypted Response is the k-th clear assertion of the received one is the object model's business (C12)",
                "claims are relative to the stand-in's model of xmlsec1 (first ds:Signature in document order from the start node)"]
 
 SAML = F.SAML
@@ -56,7 +65,17 @@ def setup():
 
 
 def genuine(kind, n=1):
-    """kind: resp | assert | both -> signed XML text"""
+    """kind: resp | assert | both | encassert (the signed assertion encrypted to the SP) -> signed XML text.
+    n: 1, 2 two different users; 3: user 1 with a SessionNotOnOrAfter on the AuthnStatement"""
+    key = (kind, n)
+    if key in _genuine_cache:
+        return _genuine_cache[key]
+    enc = kind == "encassert"
+    flavour = n
+    if n == 3:
+        n = 1
+    if enc:
+        kind = "assert"
     c = C.base_case(PROP, cfg={})
     r = c["resp"]
     r["id"] = "r-orig-%d" % n
@@ -67,7 +86,19 @@ def genuine(kind, n=1):
                   ["urn:oid:2.5.4.4", "urn:oasis:names:tc:SAML:2.0:attrname-format:uri", "sn", ["Genuine"]]]
     r["sig"] = "valid" if kind in ("resp", "both") else "absent"
     a["sig"] = "valid" if kind in ("assert", "both") else "absent"
-    return F.render_response(r)
+    if flavour == 3:
+        r["id"] = "r-orig-3"
+        a["id"] = "a-orig-3"
+        for st in a.get("authn", []):
+            st["session_nooa"] = S.NOW0 + 1234
+    if enc:
+        a["encrypted"] = True
+    x = F.render_response(r)
+    _genuine_cache[key] = x
+    return x
+
+
+_genuine_cache = {}
 
 
 # --------------------------------------------------------------------------- abstract trees
@@ -130,6 +161,7 @@ def depth(n, parent):
 # --------------------------------------------------------------------------- probe around _check_signature
 
 _calls = []
+_decr = []
 
 
 def install_probe():
@@ -171,6 +203,17 @@ def install_probe():
 
     sv.validate_doc_with_schema = schema
     sv.SecurityContext._check_signature = check
+
+    import saml2.response as rs
+
+    orig_dec = rs.AuthnResponse.decrypt_assertions
+
+    def dec(self, encrypted_assertions, decr_txt, issuer=None, verified=False):
+        _decr.append({"txt": decr_txt if isinstance(decr_txt, str) else decr_txt.decode("utf-8"), "verified": bool(verified),
+                      "at": len(_calls)})
+        return orig_dec(self, encrypted_assertions, decr_txt, issuer=issuer, verified=verified)
+
+    rs.AuthnResponse.decrypt_assertions = dec
 
 
 # --------------------------------------------------------------------------- surgery
@@ -335,6 +378,98 @@ def sibling_variant(xml, level, order, id_policy, sig_policy):
     return ET.tostring(root, encoding="unicode")
 
 
+# ---- wrapping across the encryption boundary
+
+_enc_n = [0]
+
+
+def enc_wrap(assertion, form):
+    """-> <saml:EncryptedAssertion> carrying a copy of `assertion`.  form: enc (encrypted to the SP's certificate: anybody can do
+    that) | enc_other (encrypted to a key the SP does not hold) | plain (left in clear inside the wrapper)"""
+    a = copy.deepcopy(assertion)
+    a.tail = None
+    if form == "plain":
+        ea = ET.Element(Q(SAML, "EncryptedAssertion"))
+        ea.append(a)
+        return ea
+    scratch = ('<samlp:Response xmlns:samlp="%s" xmlns:saml="%s"><saml:EncryptedAssertion>%s</saml:EncryptedAssertion></samlp:Response>'
+               % (SAMLP, SAML, ET.tostring(a, encoding="unicode")))
+    out = F.encrypt_first_assertion(scratch, "sp_enc1" if form == "enc" else "attacker")
+    ea = ET.fromstring(out).find(Q(SAML, "EncryptedAssertion"))
+    _enc_n[0] += 1
+    for n in ea.iter():
+        if n.get("Id"):
+            n.set("Id", "%s_%d" % (n.get("Id"), _enc_n[0]))
+    ea.tail = None
+    return ea
+
+
+def apply_id_policy(evil, orig, id_policy):
+    if id_policy == "fresh":
+        evil.set("ID", "evil-" + orig.get("ID"))
+    elif id_policy == "removed":
+        evil.attrib.pop("ID", None)
+    elif id_policy == "case":
+        evil.set("ID", orig.get("ID").swapcase())
+    elif id_policy == "padded":
+        evil.set("ID", orig.get("ID") + " ")
+
+
+# a layout: the assertion slots that replace the genuine assertion, in order.  slot = (who, form, advice) with who: orig | evil,
+# form: clear | enc | enc_other | plain, advice: None or (who, form) placed below the slot's saml:Advice before the slot is wrapped
+ENC_LAYOUTS = {
+    "Eevil+orig": [("evil", "enc", None), ("orig", "clear", None)],
+    "orig+Eevil": [("orig", "clear", None), ("evil", "enc", None)],
+    "evil+Eorig": [("evil", "clear", None), ("orig", "enc", None)],
+    "Eorig+evil": [("orig", "enc", None), ("evil", "clear", None)],
+    "Eevil+Eorig": [("evil", "enc", None), ("orig", "enc", None)],
+    "Eorig+Eevil": [("orig", "enc", None), ("evil", "enc", None)],
+    "Eevil": [("evil", "enc", None)],
+    "Pevil+Eorig": [("evil", "plain", None), ("orig", "enc", None)],
+    "Eorig+Pevil": [("orig", "enc", None), ("evil", "plain", None)],
+    "Pevil+orig": [("evil", "plain", None), ("orig", "clear", None)],
+    "orig+Xevil": [("orig", "clear", None), ("evil", "enc_other", None)],
+    "Xorig+Eevil": [("orig", "enc_other", None), ("evil", "enc", None)],
+    "evil{Eorig}": [("evil", "clear", ("orig", "enc"))],
+    "evil{Porig}+Eorig": [("evil", "clear", ("orig", "plain")), ("orig", "enc", None)],
+    "E(evil{orig})": [("evil", "enc", ("orig", "clear"))],
+    "E(evil{Eorig})": [("evil", "enc", ("orig", "enc"))],     # two decryption stages
+}
+
+
+def encwrap_variant(xml, layout, id_policy, sig_policy):
+    """the genuine assertion and a doctored copy on the two sides of the encryption boundary"""
+    root = ET.fromstring(xml)
+    orig = root.find(Q(SAML, "Assertion"))
+    if orig is None:
+        return None
+    if not any(c.tag == Q(DS, "Signature") for c in orig):
+        return None
+    evil = copy.deepcopy(orig)
+    evilise(evil)
+    apply_id_policy(evil, orig, id_policy)
+    if sig_policy == "stripped":
+        strip_sigs(evil)
+    idx = list(root).index(orig)
+    root.remove(orig)
+    who = {"orig": orig, "evil": evil}
+    out = []
+    for (w, form, adv) in ENC_LAYOUTS[layout]:
+        e = copy.deepcopy(who[w])
+        e.tail = None
+        if adv is not None:
+            inner = copy.deepcopy(who[adv[0]])
+            inner.tail = None
+            if adv[1] != "clear":
+                inner = enc_wrap(inner, adv[1])
+            if not carrier_insert(e, inner, "advice", None):
+                return None
+        out.append(e if form == "clear" else enc_wrap(e, form))
+    for k, e in enumerate(out):
+        root.insert(idx + k, e)
+    return ET.tostring(root, encoding="unicode")
+
+
 SINGLETONS = [  # (parent tag, child tag)
     (Q(SAMLP, "Response"), Q(SAML, "Issuer")), (Q(SAMLP, "Response"), Q(DS, "Signature")), (Q(SAMLP, "Response"), Q(SAMLP, "Status")),
     (Q(SAML, "Assertion"), Q(SAML, "Issuer")), (Q(SAML, "Assertion"), Q(DS, "Signature")), (Q(SAML, "Assertion"), Q(SAML, "Subject")),
@@ -475,6 +610,8 @@ def edit_variant(xml, where, rng):
         find1(root, Q(SAML, "Subject")).tail = "\n  "
     elif where == "session_index":
         find1(root, Q(SAML, "AuthnStatement")).set("SessionIndex", "evil-session")
+    elif where == "session_nooa":
+        find1(root, Q(SAML, "AuthnStatement")).set("SessionNotOnOrAfter", S.fmt_time(S.NOW0 + 10 ** 7))
     elif where == "id":
         a = find1(root, Q(SAML, "Assertion"))
         a.set("ID", a.get("ID") + "x")
@@ -517,7 +654,7 @@ def random_surgery(xml, rng, other_xml):
     nodes = [n for n in root.iter()]
     parent = {c: p for p in root.iter() for c in p}
     for _ in range(rng.randint(1, 3)):
-        op = rng.randrange(6)
+        op = rng.randrange(7 if ENCRYPTION_BOUNDARY else 6)
         n = rng.choice(nodes)
         if op == 0 and n in parent:  # duplicate
             p = parent[n]
@@ -541,6 +678,24 @@ def random_surgery(xml, rng, other_xml):
             o = ET.fromstring(other_xml)
             g = rng.choice([x for x in o.iter()])
             n.insert(rng.randrange(len(n) + 1), copy.deepcopy(g))
+        elif op == 6:  # across the encryption boundary: encrypt an assertion where it stands / add an encrypted doctored copy
+            asr = [x for x in nodes if x.tag == Q(SAML, "Assertion") and x in parent]
+            if asr:
+                a = rng.choice(asr)
+                form = rng.choice(["enc", "enc", "plain", "enc_other"])
+                if rng.random() < 0.4:
+                    p = parent[a]
+                    i = list(p).index(a)
+                    p.remove(a)
+                    p.insert(i, enc_wrap(a, form))
+                else:
+                    ev = copy.deepcopy(a)
+                    evilise(ev)
+                    apply_id_policy(ev, a, rng.choice(["same", "fresh", "removed", "case", "padded"]))
+                    if rng.random() < 0.5:
+                        strip_sigs(ev)
+                    tgt = rng.choice([root, parent[a]])
+                    tgt.insert(rng.randrange(len(tgt) + 1), enc_wrap(ev, form))
         nodes = [x for x in root.iter()]
         parent = {c: p for p in root.iter() for c in p}
     return ET.tostring(root, encoding="unicode")
@@ -557,11 +712,43 @@ def gen_cases(rng, tier):
     gens2 = {k: genuine(k, 2) for k in GENUINE_KINDS}
     seen = set()
 
-    def emit(kind, xml, tag, cfg=None, key=None):
+    def emit(kind, xml, tag, cfg=None, key=None, n=1):
         if xml is None or (xml, key) in seen:
             return None
         seen.add((xml, key))
-        return {"op": "xsw", "kind": kind, "xml": xml, "tag": tag, "cfg": cfg or CFG_FOR[kind]}
+        return {"op": "xsw", "kind": kind, "n": n, "xml": xml, "tag": tag, "cfg": cfg or CFG_FOR[kind]}
+
+    # genuine messages of the other shapes: the signed assertion encrypted to the SP; a session limit on the AuthnStatement
+    c = emit("encassert", genuine("encassert", 1), "genuine")
+    if c:
+        yield c
+    for kind in ("assert", "both"):
+        g3 = genuine(kind, 3)
+        c = emit(kind, g3, "genuine:session-limit", n=3)
+        if c:
+            yield c
+        for where in ("session_nooa", "nameid", "nooa"):
+            c = emit(kind, edit_variant(g3, where, rng), "edit3:" + where, n=3)
+            if c:
+                yield c
+        for carrier in ("extensions", "advice", "last_child"):
+            for sp in ("copied", "moved"):
+                try:
+                    v = xsw_variant(g3, "Assertion", carrier, "fresh", sp, rng)
+                except (StopIteration, IndexError, ValueError):
+                    v = None
+                c = emit(kind, v, "xsw3:Assertion/%s/fresh/%s" % (carrier, sp), n=3)
+                if c:
+                    yield c
+    # wrapping across the encryption boundary
+    if ENCRYPTION_BOUNDARY:
+        for kind in ("assert", "both"):
+            for layout in ENC_LAYOUTS:
+                for idp in (("same", "fresh", "removed", "case", "padded") if kind == "assert" else ("same", "fresh")):
+                    for sp in (("copied", "stripped") if kind == "assert" else ("copied",)):
+                        c = emit(kind, encwrap_variant(gens[kind], layout, idp, sp), "encwrap:%s/%s/%s" % (layout, idp, sp))
+                        if c:
+                            yield c
 
     for kind in GENUINE_KINDS:
         c = emit(kind, gens[kind], "genuine")
@@ -636,7 +823,11 @@ def gen_cases(rng, tier):
 
 # signature requirement matching what the genuine message carries ("when a signature is required")
 CFG_FOR = {"resp": {"want_resp": True}, "assert": {"want_resp": False, "want_assert": True},
-           "both": {"want_resp": True, "want_assert": True}}
+           "both": {"want_resp": True, "want_assert": True}, "encassert": {"want_resp": False, "want_assert": True}}
+# wrapping variants across the encryption boundary in the systematic stream and in the random surgery
+ENCRYPTION_BOUNDARY = True
+# every genuine message whose report a variant may legitimately equal
+ALL_GENUINE = [(k, n) for k in GENUINE_KINDS for n in (1, 2)] + [("assert", 3), ("both", 3), ("encassert", 1)]
 
 
 # --------------------------------------------------------------------------- implementation side
@@ -648,8 +839,8 @@ _table = {}
 def _prepare():
     if _table:
         return
-    for k in GENUINE_KINDS:
-        for n in (1, 2):
+    for (k, n) in ALL_GENUINE:
+        if k != "encassert":      # its signature values are those of ("assert", 1): signing is deterministic
             learn_genuine(genuine(k, n), _table)
 
 
@@ -660,6 +851,7 @@ def run_sp_xml(xml, cfg, enc=None):
 
     sp.users = Population(Cache())
     del _calls[:]
+    del _decr[:]
     n0 = len(X.LOG)
     if enc:
         # the document as BYTES in another encoding, with a matching declaration (what is verified and what is reported
@@ -684,13 +876,18 @@ def run_sp_xml(xml, cfg, enc=None):
                     si = {}
                 conds = r.assertion.conditions if r.assertion is not None else None
                 out = {"r": "identity", "name_id": r.name_id.text if r.name_id is not None else None,
+                       "assertion_id": r.assertion.id if r.assertion is not None else None,
                        "ava": {k: list(v) for k, v in sorted((r.ava or {}).items())},
                        "issuer": si.get("issuer"), "not_on_or_after": si.get("not_on_or_after"),
                        "session_index": si.get("session_index"), "came_from": si.get("came_from"),
                        "audiences": sorted(a.text or "" for ar in (conds.audience_restriction if conds is not None else []) for a in ar.audience)}
     calls = [dict(c) for c in _calls]
     verifs = [dict(v) for v in X.LOG[n0:] if v.get("mode") == "verify"]
+    _last["decr"] = [dict(d) for d in _decr]
     return out, calls, verifs
+
+
+_last = {}
 
 
 def find_item_path(root, node_name, item_id):
@@ -705,7 +902,17 @@ def find_item_path(root, node_name, item_id):
         for j, d in enumerate(c):
             if d.tag == tag and d.get("ID") == item_id:
                 return [i, j]
-    return None
+
+    def walk(e, path):  # deeper (assertions below Advice / EncryptedAssertion): first in document order
+        for i, c in enumerate(e):
+            if c.tag == tag and c.get("ID") == item_id:
+                return path + [i]
+            r = walk(c, path + [i])
+            if r is not None:
+                return r
+        return None
+
+    return walk(root, [])
 
 
 def tree_paths(e):
@@ -737,13 +944,15 @@ def run_impl(case):
     _prepare()
     kind = case["kind"]
     if not _orig_reported:
-        for k in GENUINE_KINDS:
-            for n in (1, 2):
-                o, _, _ = run_sp_xml(genuine(k, n), CFG_FOR[k])
-                if o["r"] != "identity":
-                    raise RuntimeError("genuine message not accepted: %r" % (o,))
-                _orig_reported[(k, n)] = o
+        for (k, n) in ALL_GENUINE:
+            o, _, _ = run_sp_xml(genuine(k, n), CFG_FOR[k])
+            if o["r"] != "identity":
+                raise RuntimeError("genuine message not accepted: %r" % (o,))
+            o.pop("assertion_id", None)
+            _orig_reported[(k, n)] = o
     out, calls, verifs = run_sp_xml(case["xml"], case["cfg"], case.get("enc"))
+    decr = _last["decr"]
+    adopted_id = out.pop("assertion_id", None)
     acalls = []
     for c in calls:
         try:
@@ -758,14 +967,66 @@ def run_impl(case):
                        "id": c["id"]})
     own_ok = all(v.get("sig_is_last_own", True) and v.get("n_sig_children", 1) == 1 for v in verifs if v.get("ok"))
     # what genuinely signed elements say: the original, or (splices) the second genuine message
-    origs = [_orig_reported[(kind, 1)]] + [_orig_reported[(k, 2)] for k in GENUINE_KINDS]
-    return {"outcome": out, "origs": origs, "calls": acalls, "own_sig_first": own_ok}
+    origs = [_orig_reported[(kind, case.get("n", 1))]] + [_orig_reported[(k, 2)] for k in GENUINE_KINDS]
+    return {"outcome": out, "origs": origs, "calls": acalls, "own_sig_first": own_ok,
+            "flow": flow_input(case, calls, decr, adopted_id)}
+
+
+def flow_input(case, calls, decr, adopted_id):
+    """what the flow model (Model/XswFlow.lean) is given and what the implementation did at assertion level"""
+    if not case["cfg"].get("want_assert"):
+        return None      # no signature required on assertions: Entity._parse_response runs verify() twice, not modelled
+    try:
+        recv = ET.fromstring(case["xml"])
+    except ET.ParseError:
+        return None
+    first = decr[0]["at"] if decr else None
+    a_name = SAML + ":Assertion"
+    seen, hints = [], []
+    for i, c in enumerate(calls):
+        if c["node_name"] != a_name:
+            continue
+        d = first is not None and i >= first
+        seen.append({"decr": d, "id": c["id"], "result": c["result"]})
+        hints.append({"decr": d, "id": c["id"], "schema_ok": c.get("schema_ok", True), "key": None if c.get("no_key") else 1})
+    skip = None
+    dtree = None
+    if decr:
+        if any(d["verified"] for d in decr) or len(set(d["txt"] for d in decr)) > 1:
+            skip = "two-stages"
+        else:
+            try:
+                droot = ET.fromstring(decr[0]["txt"])
+            except ET.ParseError:
+                skip = "decrypted-text-unparsable"
+            else:
+                for ea in droot.iter(Q(SAML, "EncryptedAssertion")):
+                    if any(ch.tag != Q(SAML, "Assertion") and ch.tag.startswith(("{%s}" % SAML, "{%s}" % SAMLP)) for ch in ea):
+                        skip = "foreign-element-in-EncryptedAssertion"
+                dtree = abstract(droot, None, _table)
+    f = {"recv": abstract(recv, None, _table), "decr": dtree, "require_sig": True, "hints": hints, "seen": seen,
+         "adopted_id": adopted_id}
+    if skip:
+        f["skip"] = skip
+    return f
 
 
 def compare(case, impl, model):
     if model is None:
         return False
-    return [c["result"] for c in impl["calls"]] == model.get("calls")
+    if [c["result"] for c in impl["calls"]] != model.get("calls"):
+        return False
+    fi, fm = impl.get("flow"), model.get("flow")
+    if fi is None or fm is None or fm.get("skip"):
+        return True
+    mine = [[c["decr"], c["id"], c["result"]] for c in fi["seen"]]
+    theirs = [[c["decr"], c["id"], c["result"]] for c in fm["calls"]]
+    if mine != theirs[:len(mine)]:
+        return False       # a check the model does not make, or one it makes and the implementation skipped / answered otherwise
+    if impl["outcome"]["r"] == "identity":
+        # accepted: every check of the model was made, the model adopts, and what is reported is the first adopted assertion
+        return mine == theirs and fm["verdict"] == "adopted" and fm["adopted"][:1] == [fi["adopted_id"]]
+    return True
 
 
 def finding_key(case, impl, lean):
@@ -789,11 +1050,24 @@ def nontrivial(case, impl, lean):
     return bool(impl["calls"])
 
 
+def flow_stats(recs):
+    d = {}
+    for r in recs:
+        f = r["impl"].get("flow")
+        k = "not-applicable" if f is None else ("skipped:" + f["skip"] if f.get("skip") else
+                                                "compared/%s/%d-checks%s" % (r["impl"]["outcome"]["r"], len(f["seen"]),
+                                                                            "/decrypted" if f.get("decr") is not None else ""))
+        d[k] = d.get(k, 0) + 1
+    return d
+
+
 def distribution(recs):
     d = {}
     for r in recs:
         k = r["case"]["tag"].split(":")[0] + ":" + r["impl"]["outcome"]["r"] + ("" if r["impl"]["outcome"] in r["impl"]["origs"] or r["impl"]["outcome"]["r"] != "identity" else "/DIFFERENT")
         d[k] = d.get(k, 0) + 1
+    for k, v in flow_stats(recs).items():
+        d["flow:" + k] = v
     return d
 
 
